@@ -307,10 +307,11 @@ func main() {
 
 		// =============================================================== reads
 		type tf struct {
-			name    string
-			data    []byte
-			armored bool
-			seams   []int
+			name     string
+			data     []byte
+			armored  bool
+			seams    []int
+			baseOnly bool // judged on the undisturbed delivery with every consumer, schedules not explored (large files)
 		}
 		var files []tf
 		var rsizes []int
@@ -352,14 +353,14 @@ func main() {
 				if err != nil {
 					panic(err)
 				}
-				files = append(files, tf{fmt.Sprintf("valid.n%d.a%v", n, armored), f, armored, seamsOf(f, armored)})
+				files = append(files, tf{fmt.Sprintf("valid.n%d.a%v", n, armored), f, armored, seamsOf(f, armored), false})
 				if n == 2*C+1 || n == 1 || n == C {
 					if !armored {
 						hdr, _, _, _ := refage.SplitFile(f)
 						pstart := len(hdr) + 16
 						mut := func(name string, g func(b []byte) []byte) {
 							d := g(append([]byte{}, f...))
-							files = append(files, tf{fmt.Sprintf("%s.n%d", name, n), d, false, seamsOf(f, false)})
+							files = append(files, tf{fmt.Sprintf("%s.n%d", name, n), d, false, seamsOf(f, false), false})
 						}
 						mut("trunc-mid-chunk", func(b []byte) []byte { return b[:len(b)-3] })
 						mut("trunc-nonce", func(b []byte) []byte { return b[:len(hdr)+7] })
@@ -381,7 +382,7 @@ func main() {
 						}
 					} else {
 						mut := func(name string, g func(s string) string) {
-							files = append(files, tf{fmt.Sprintf("%s.n%d", name, n), []byte(g(string(f))), true, seamsOf(f, true)})
+							files = append(files, tf{fmt.Sprintf("%s.n%d", name, n), []byte(g(string(f))), true, seamsOf(f, true), false})
 						}
 						mut("armor-trailing-garbage", func(s string) string { return s + " \n x" })
 						mut("armor-trailing-ws-1024", func(s string) string { return s + strings.Repeat(" ", 1024) })
@@ -393,6 +394,25 @@ func main() {
 						mut("armor-cut-mid-line", func(s string) string { return s[:len(s)/2] })
 					}
 				}
+			}
+		}
+		// armored files whose last base64 line is full (binary length a multiple of 48) and whose final chunk is full: the
+		// decryptor's end-of-payload probe is then the first read to reach the END line
+		for r := 1; r <= 16; r++ {
+			var rs []age.Recipient
+			for i := 0; i < r; i++ {
+				rs = append(rs, keys.X(i).Rcpt)
+			}
+			for k := 1; k <= 3; k++ {
+				bin, err := lab.Encrypt(rs, lab.Plain(k*C, c.Seed+7), false, nil)
+				if err != nil {
+					panic(err)
+				}
+				if len(bin)%48 != 0 {
+					continue
+				}
+				arm := []byte(refage.Armor(bin))
+				files = append(files, tf{fmt.Sprintf("valid.full-last-line.r%d.k%d", r, k), arm, true, seamsOf(arm, true), !scaled})
 			}
 		}
 		type consumer struct {
@@ -520,6 +540,10 @@ func main() {
 				}
 				if strings.HasPrefix(f.name, "valid") && (base.decErr != "" || base.readErr != "") {
 					c.Fail("valid-file-fails", id0, base.decErr+base.readErr, nil)
+				}
+				if f.baseOnly {
+					c.Eval(1)
+					continue
 				}
 				ex := &explore.Explorer{Bound: bound, Stop: c.Expired}
 				// units whose default execution already passes many choice points (small fixed-size reads of a
